@@ -267,12 +267,15 @@ class SATEncoder:
         from solvor.cp import IntVar
 
         name = f"_aux{self._next_bool}"
+        # Auxiliary variables are private to this encoding: keep the model's literal counter and variables untouched
+        next_bool = self.model._next_bool
         var = IntVar(self.model, lb, ub, name)
+        self.model._next_bool = next_bool
         # Manually create bool vars using our counter
         var.bool_vars = {}
         for v in range(lb, ub + 1):
             var.bool_vars[v] = self._new_bool_var()
-        self.model._vars[name] = var
+        self._encode_exactly_one(list(var.bool_vars.values()))
         return var
 
     # Global constraints
@@ -286,15 +289,16 @@ class SATEncoder:
         # All different
         self._encode_all_different(variables)
 
-        # No self-loops: x[i] != i
+        # Successors are nodes 0..n-1, and no self-loops: x[i] != i
         for i, var in enumerate(variables):
-            if i in var.bool_vars:
-                self._clauses.append([-var.bool_vars[i]])
+            for val, lit in var.bool_vars.items():
+                if val == i or not 0 <= val < n:
+                    self._clauses.append([-lit])
 
         if n <= 1:
             return
 
-        # Subtour elimination using MTZ formulation
+        # Subtour elimination using MTZ formulation: t[i] is the position of node i in the tour
         t = [self._create_int_var(0 if i == 0 else 1, n - 1) for i in range(n)]
         # t[0] is fixed to 0
         self._clauses.append([t[0].bool_vars[0]])
@@ -302,13 +306,11 @@ class SATEncoder:
         # For each edge i -> j (j != 0): t[j] >= t[i] + 1
         for i, var in enumerate(variables):
             for j in range(1, n):
-                if j in var.bool_vars:
-                    for ti in range(var.lb, var.ub + 1):
-                        if ti not in t[i].bool_vars:
-                            continue
-                        for tj in range(t[j].lb, ti + 1):
-                            if tj in t[j].bool_vars:
-                                self._clauses.append([-var.bool_vars[j], -t[i].bool_vars[ti], -t[j].bool_vars[tj]])
+                if j != i and j in var.bool_vars:
+                    for ti, lit_i in t[i].bool_vars.items():
+                        for tj, lit_j in t[j].bool_vars.items():
+                            if tj <= ti:
+                                self._clauses.append([-var.bool_vars[j], -lit_i, -lit_j])
 
     def _encode_no_overlap(self, starts: tuple["IntVar", ...], durations: tuple[int, ...]) -> None:
         """Encode no-overlap constraint: intervals don't overlap."""
